@@ -171,8 +171,8 @@ func checkReplyPaths(c *core.Ctx, rule string, fn *ssa.Function, role *orcaRole,
 
 func runC08(c *core.Ctx) {
 	defer func() {
-		c.Share(map[string]string{"R11.2": "R8.10"}, runC11) // continuing after a parse error that consumed nothing leaves the stream out of sync
-		c.Share(map[string]string{"R7.9": "R8.9", "R7.6": "R8.12"}, runC07)   // a header released twice is decoded by two connections: replies carry another request's opaque
+		c.Share(map[string]string{"R11.2": "R8.10"}, runC11)                                  // continuing after a parse error that consumed nothing leaves the stream out of sync
+		c.Share(map[string]string{"R7.9": "R8.9", "R7.6": "R8.12", "R7.10": "R8.13"}, runC07) // a header released twice is decoded by two connections: replies carry another request's opaque
 	}()
 	c.Rule("R8.1", "on every path of an in-scope orchestrator method: a non-nil error is returned with no terminal reply sent, nil (or the responder's own result) with exactly one terminal reply of the command's own responder method; gets send any number of per-key replies and exactly one GetEnd", 40)
 	c.Rule("R8.2", "a wrapper that issues one sub-get per key must not multiply the terminator: every responder's GetEnd is silent unless its batch-end argument is true, or the wrapper mutes GetEnd on all but the last sub-get", 2)
@@ -205,6 +205,7 @@ func runC08(c *core.Ctx) {
 	checkParallelSlices(c, "R8.8")
 	runR82(c)
 	runR811(c)
+	runR814(c)
 	runR83(c)
 	runR84(c)
 	runR85(c)
